@@ -20,6 +20,7 @@ var Registry = map[string]func() int{
 	"C14": C14,
 	"C15": C15,
 	"C16": C16,
+	"C17": C17,
 }
 
 func IDs() []string {
